@@ -8,7 +8,7 @@
    theorems.json). *)
 From Coq Require Import SpecFloat.
 Require Import Base Value Float PrintOptions ParseOptions Reader Scan Num Parser DatumProofs DepthProofs.
-Require Import ReaderProofs TokenProofs RoundtripProofs TriviaProofs ElispRoundtrip ElispTrivia PositionProofs SpanProofs FuelProofs FloatFuel CrossProofs SourcesAgree.
+Require Import ReaderProofs TokenProofs RoundtripProofs TriviaProofs ElispRoundtrip ElispTrivia PositionProofs SpanProofs FuelProofs FloatFuel CrossProofs SourcesAgree ValidTextProofs.
 
 (* value_iter().next() and Iterator for Parser are next_value().transpose(),
    datum_iter().next() is next_datum().transpose(): in the model these are
@@ -228,6 +228,18 @@ Theorem C12_iterate_slice_stream : forall ro alpha fast std_parse (s : bytes) n,
     (iterate_values ro alpha fast std_parse (fuel_for (bytes_events s)) n (init_state SrcIo (bytes_events s))).
 Proof. exact iterate_slice_stream. Qed.
 Print Assumptions C12_iterate_slice_stream.
+
+(* ... and from a &str and the byte slice of the same well-formed text exactly
+   the same items, values and datums, errors with their positions included, for
+   every option set - also past an error, since a str reader is still inside
+   the text whatever a call returned. *)
+Theorem C12_iterate_str_slice_on_text : forall W, Utf8.utf8_valid W = true -> forall ro alpha fast std_parse n,
+  iterate_values ro alpha fast std_parse (fuel_for (bytes_events W)) n (init_state SrcStr (bytes_events W)) =
+  iterate_values ro alpha fast std_parse (fuel_for (bytes_events W)) n (init_state SrcSlice (bytes_events W)) /\
+  iterate_datums ro alpha fast std_parse (fuel_for (bytes_events W)) n (init_state SrcStr (bytes_events W)) =
+  iterate_datums ro alpha fast std_parse (fuel_for (bytes_events W)) n (init_state SrcSlice (bytes_events W)).
+Proof. exact valid_text_iterate. Qed.
+Print Assumptions C12_iterate_str_slice_on_text.
 
 (* An unexpected closer is consumed when it is reported, so iteration moves on. *)
 Example C12_closer_consumed :
